@@ -212,7 +212,8 @@ Lemma source_tie_proved :
   src_remove_log_order = true /\ src_save_raft_state_before_process_snapshot = true /\
   src_snapshot_update_not_fast_applied = true /\
   src_can_stream_guard = true /\ src_ready_to_stream = true /\ src_concurrent_save_syncs = true /\
-  src_membership_get_copies = true /\ src_send_snapshot_decision = true.
+  src_membership_get_copies = true /\ src_send_snapshot_decision = true /\
+  src_stream_task_outcome = true /\ src_chunk_sync_cond = true /\ src_batch_payload_own_buffer = true.
 Proof. repeat split; reflexivity. Qed.
 
 (* ====================================================================== *)
